@@ -1,5 +1,6 @@
 mod dump;
 mod exec;
+mod masm;
 mod parse;
 
 use std::io::{BufRead, BufWriter, Write};
@@ -16,6 +17,8 @@ fn run_family(family: &str, path: &str) {
         let r = match family {
             "exec" => exec::run_case(&line),
             "options" => exec::run_options(&line),
+            "masm" => masm::run_masm(&line),
+            "asmdump" => masm::run_asmdump(&line),
             _ => panic!("unknown family {family}"),
         };
         writeln!(out, "{r}").unwrap();
